@@ -177,7 +177,8 @@ std::string fs(const Args& a) {
 						case 0: {
 							if (nb > 1) {
 								uint32_t id = rng.below(nb);
-								if (id != rootId)
+								// (not a geometry data block: its shape would keep a dangling cached pointer — C06 known finding)
+								if (id != rootId && !dynamic_cast<NiGeometryData*>(hdr.GetBlock<NiObject>(id)))
 									hdr.DeleteBlock(id);
 							}
 							break;
@@ -205,7 +206,7 @@ std::string fs(const Args& a) {
 							if (nb > 0) {
 								uint32_t id = rng.below(nb);
 								auto b = hdr.GetBlock<NiObject>(id);
-								if (b && id != rootId)
+								if (b && id != rootId && !dynamic_cast<NiGeometryData*>(b))
 									hdr.ReplaceBlock(id, b->Clone());
 							}
 							break;
